@@ -12,9 +12,9 @@ CONSTANTS
   Names = {"", "abc", "abcd", "iter", "logger"}
   Sizes = {0, 3}
   Probe <- McProbe
-  MaxAdds = 6
+  MaxAdds = 5
 CONSTRAINT Bound
 VIEW View
-INVARIANTS TypeOK Refines ChunksDense Unique InRange NameInverse
+INVARIANTS TypeOK Refines ChunksDense InRange NameInverse
 PROPERTIES Legal Stable RefuseFrame DesignAgrees
 CHECK_DEADLOCK FALSE
